@@ -149,3 +149,83 @@ Example c01_ex_overflow :
                (false, UVar (Some {| d_int := repeat 57%N 308; d_frac := None |}) None)] in
    wf_src src = true /\ @src_finite float FNum src = true /\ sums_finite (@terms_of float FNum src) = false).
 Proof. vm_compute. repeat split. Qed.
+
+(* ---- FLOAT instance: "equals the sum of c_k x^k up to floating-point rounding", proved (Proofs/PolyFloat.v, Flocq) ----
+   [B2R (Prim2B x)] is the real value of the primitive float x.
+   okmul x y := is_finite (Prim2B (x*y)) = true /\ (B2R x * B2R y = 0 \/ 2^-1022 <= |B2R x * B2R y|);
+   powi_no_underflow x k : every multiplication of npowi x k is okmul;
+   eval_no_underflow cs x : for every i < length cs, powi_no_underflow x i and okmul c_i (npowi x i). *)
+From Flocq Require Import Core BinarySingleNaN PrimFloat.
+From SV Require Import Model.Stats Proofs.PolyFloat.
+
+(* x.powi(k) (square-and-multiply) in binary64: if every multiplication of the scheme is finite and its exact
+   value is zero or of magnitude >= 2^-1022 ([powi_no_underflow], built from [okmul]), the result is finite and
+   |fl - x^k| <= ((1+eps)^k - 1) |x|^k,  eps = 2^-53 *)
+Theorem c01_powi_float_error : forall (x : PrimFloat.float) (k : nat),
+  powi_no_underflow x (Z.of_nat k) ->
+  is_finite (Prim2B (npowi x (Z.of_nat k))) = true /\
+  (Rabs (B2R (Prim2B (npowi x (Z.of_nat k))) - B2R (Prim2B x) ^ k)
+    <= ((1 + bpow radix2 (-53)) ^ k - 1) * Rabs (B2R (Prim2B x)) ^ k)%R.
+Proof. exact Proofs.PolyFloat.powi_float_error. Qed.
+Check c01_powi_float_error : forall (x : PrimFloat.float) (k : nat),
+  powi_no_underflow x (Z.of_nat k) ->
+  is_finite (Prim2B (npowi x (Z.of_nat k))) = true /\
+  (Rabs (B2R (Prim2B (npowi x (Z.of_nat k))) - B2R (Prim2B x) ^ k)
+    <= ((1 + bpow radix2 (-53)) ^ k - 1) * Rabs (B2R (Prim2B x)) ^ k)%R.
+Print Assumptions c01_powi_float_error.
+
+(* the rounding clause of C01: under the same no-underflow condition on every product of every term
+   ([eval_no_underflow]) and finite partial sums, |fl(p(x)) - sum_k c_k x^k| <= ((1+eps)^(2n) - 1) sum_k |c_k| |x|^k,
+   n = length of the coefficient vector = degree + 1 (so 2n = 2 deg + 2 <= 3 deg + 2) *)
+Theorem c01_eval_simple_float_error : forall (p : spoly PrimFloat.float) (x : PrimFloat.float),
+  eval_no_underflow (s_coefs p) x ->
+  (forall m, (m <= List.length (s_coefs p))%nat ->
+     is_finite (Prim2B (sum_list (firstn m (eval_terms_from x 0 (s_coefs p))))) = true) ->
+  is_finite (Prim2B (eval_simple p x)) = true /\
+  (Rabs (B2R (Prim2B (eval_simple p x))
+        - fold_right (fun k acc => B2R (Prim2B (nth k (s_coefs p) n0)) * B2R (Prim2B x) ^ k + acc) 0
+            (seq 0 (List.length (s_coefs p))))
+    <= ((1 + bpow radix2 (-53)) ^ (2 * List.length (s_coefs p)) - 1)
+       * fold_right (fun k acc => Rabs (B2R (Prim2B (nth k (s_coefs p) n0))) * Rabs (B2R (Prim2B x)) ^ k + acc) 0
+           (seq 0 (List.length (s_coefs p))))%R.
+Proof. exact Proofs.PolyFloat.eval_simple_float_error. Qed.
+Check c01_eval_simple_float_error : forall (p : spoly PrimFloat.float) (x : PrimFloat.float),
+  eval_no_underflow (s_coefs p) x ->
+  (forall m, (m <= List.length (s_coefs p))%nat ->
+     is_finite (Prim2B (sum_list (firstn m (eval_terms_from x 0 (s_coefs p))))) = true) ->
+  is_finite (Prim2B (eval_simple p x)) = true /\
+  (Rabs (B2R (Prim2B (eval_simple p x))
+        - fold_right (fun k acc => B2R (Prim2B (nth k (s_coefs p) n0)) * B2R (Prim2B x) ^ k + acc) 0
+            (seq 0 (List.length (s_coefs p))))
+    <= ((1 + bpow radix2 (-53)) ^ (2 * List.length (s_coefs p)) - 1)
+       * fold_right (fun k acc => Rabs (B2R (Prim2B (nth k (s_coefs p) n0))) * Rabs (B2R (Prim2B x)) ^ k + acc) 0
+           (seq 0 (List.length (s_coefs p))))%R.
+Print Assumptions c01_eval_simple_float_error.
+
+(* [okmul x y] (product finite, exact product zero or normal) can be discharged by computation:
+   the computed product is finite and at least 2^-1021 in magnitude (two_m1021 = 0x1p-1021) *)
+Theorem c01_okmul_by_leb : forall x y : PrimFloat.float,
+  PrimFloat.is_finite (PrimFloat.mul x y) = true ->
+  PrimFloat.leb two_m1021 (PrimFloat.abs (PrimFloat.mul x y)) = true ->
+  okmul x y.
+Proof. exact Proofs.PolyFloat.okmul_by_leb. Qed.
+Check c01_okmul_by_leb : forall x y : PrimFloat.float,
+  PrimFloat.is_finite (PrimFloat.mul x y) = true ->
+  PrimFloat.leb two_m1021 (PrimFloat.abs (PrimFloat.mul x y)) = true ->
+  okmul x y.
+Print Assumptions c01_okmul_by_leb.
+
+(* non-vacuity: 3x^2+2x-5 (Proofs.PolyFloat.ex_poly, coefficient vector [-5; 2; 3]) at x = 1.5 (ex_x1) and at
+   x = 0.1 (ex_x2 = 0x1.999999999999ap-4) satisfies the hypotheses of c01_eval_simple_float_error; checked by computation *)
+Example c01_float_nonvacuous_1 :
+  eval_no_underflow (s_coefs ex_poly) ex_x1 /\
+  (forall m, (m <= List.length (s_coefs ex_poly))%nat ->
+     is_finite (Prim2B (sum_list (firstn m (eval_terms_from ex_x1 0 (s_coefs ex_poly))))) = true).
+Proof. exact Proofs.PolyFloat.ex_eval_hyps_1. Qed.
+Example c01_float_nonvacuous_2 :
+  eval_no_underflow (s_coefs ex_poly) ex_x2 /\
+  (forall m, (m <= List.length (s_coefs ex_poly))%nat ->
+     is_finite (Prim2B (sum_list (firstn m (eval_terms_from ex_x2 0 (s_coefs ex_poly))))) = true).
+Proof. exact Proofs.PolyFloat.ex_eval_hyps_2. Qed.
+Example c01_float_nonvacuous_powi : powi_no_underflow ex_x2 (Z.of_nat 5).
+Proof. exact Proofs.PolyFloat.ex_powi_hyp. Qed.
